@@ -95,7 +95,7 @@ type execGen struct {
 }
 
 func (g *execGen) pick(xs ...string) string { return xs[g.rng.Intn(len(xs))] }
-func (g *execGen) pickE(xs ...obj) obj        { return xs[g.rng.Intn(len(xs))] }
+func (g *execGen) pickE(xs ...obj) obj      { return xs[g.rng.Intn(len(xs))] }
 
 // small expressions that stay inside the reference's region most of the time
 func (g *execGen) atom() obj {
